@@ -9,6 +9,7 @@ stack still sits at the end of the initialised part of what it wraps, i.e. nothi
 it yet ("first fill"). Stacks without `Uninit` layers are always fresh (`slice_stacks_are_fresh`).
 -/
 import Compio.Lemmas.View
+import Compio.Lemmas.ViewVec
 
 namespace Compio.Props.C10
 open Compio Compio.View
@@ -126,10 +127,6 @@ theorem fill_makes_bytes_visible (v v' : Buf) (hw : v.getRoot.WF) (hf : v.Fresh)
       rw [this]
       exact Buf.asInit_after_grow hf hw.le hi hu (by omega) hk _ (by simp only; exact hl)
 
-/-- what one fill does to the root -/
-def fillRoot (o : Nat) (r : Root) (d : Bytes) : Root :=
-  { r with len := max r.len (o + d.length), mem := splice r.mem o d }
-
 /-- **Any sequence of fills through one slice stack** (any nesting depth, no `Uninit` layer): every fill
 of the sequence obeys the fill law — the final root is the fold of `fillRoot` over the sequence, the view
 stack is unchanged. (For `Uninit` this fails at the second fill: `Cex/C10`.) -/
@@ -183,7 +180,145 @@ theorem flatten_reports_same_view (v : Buf) (n : Nat) :
   rw [Buf.setLen_eq, Buf.setLen_eq, Buf.flatten_off, Buf.getRoot_flatten]
   cases v.getRoot.setLen (v.off + n) <;> simp [Except.toOption]
 
-/-! ## 5. Non-vacuity: the hypotheses are met by non-trivial data -/
+/-! ## 4b. `Writer` / `extend_from_slice` and `Reader` -/
+
+/-- **Append law** of `extend_from_slice` / `Writer::write` on a fresh view: when `reserve` agrees and the
+data fits (`li + |data| ≤ c`), the bytes are stored right behind the view's initialised bytes and recorded:
+root `= fillRoot (o + li) root data`. (On a re-used `Uninit` the copy is aimed at `begin + 2·len` — possibly
+outside the allocation: `Cex/C10`.) -/
+theorem extend_law (v : Buf) (hw : v.getRoot.WF) (hf : v.Fresh) (oi li o c : Nat)
+    (hi : v.asInit = .ok (oi, li)) (hu : v.asUninit = .ok (o, c)) (data : Bytes)
+    (hres : v.reserve data.length = .ok (some true)) (hk : li + data.length ≤ c) :
+    ∃ v', v.extend data = .done v' ∧ v' = v.setRoot (fillRoot (o + li) v.getRoot data) := by
+  obtain ⟨ha1, ha2, ha3⟩ := Buf.fresh_aligned hf hw.le hi hu
+  obtain ⟨hi1, hi2⟩ := Buf.asInit_inside hi
+  obtain ⟨hu1, hu2⟩ := Buf.asUninit_inside hu
+  simp only at ha1 ha2 ha3 hi1 hi2 hu1 hu2
+  subst ha1
+  have hfit : oi + li + data.length ≤ v.getRoot.cap := by omega
+  unfold Buf.extend
+  simp only [hi, hres, hu, hfit, or_true, if_true]
+  unfold Buf.advanceTo
+  rw [Buf.asInit_write, hi]
+  simp only
+  by_cases hpos : data.length = 0
+  · have hnil : data = [] := List.length_eq_zero_iff.mp hpos
+    subst hnil
+    simp only [List.length_nil, Nat.add_zero, Nat.lt_irrefl, gt_iff_lt, if_false]
+    refine ⟨_, rfl, ?_⟩
+    simp only [Buf.write, fillRoot, List.length_nil, Nat.add_zero]
+    have : max v.getRoot.len (oi + li) = v.getRoot.len := by omega
+    rw [this]
+  · have hgt : li + data.length > li := by omega
+    simp only [hgt, if_true]
+    have hlen : oi + li = v.getRoot.len := ha3 (by omega)
+    rw [Buf.setLen_eq]
+    simp only [Buf.getRoot_write, Buf.off_write, ← hi1]
+    simp only [Root.cap] at hfit
+    have hsp : (splice v.getRoot.mem (oi + li) data).length = v.getRoot.mem.length :=
+      splice_length _ _ _ (by omega)
+    have hwf2 : ({ v.getRoot with mem := splice v.getRoot.mem (oi + li) data } : Root).WF := by
+      constructor
+      · simp only [Root.cap, hsp]; exact hw.le
+      · intro hkind; simp only [Root.cap, hsp]; exact hw.full hkind
+    rw [Root.setLen_of_ge _ _ hwf2 (by simp only; omega) (by simp only [Root.cap, hsp]; omega)]
+    refine ⟨_, rfl, ?_⟩
+    simp only [Buf.write, Buf.setRoot_setRoot, fillRoot]
+    have : max v.getRoot.len (oi + li + data.length) = oi + (li + data.length) := by omega
+    rw [this]
+
+/-- `Reader::read(n)` delivers the next `min(n, remaining)` initialised bytes of the view, in order, and
+moves on by exactly that many; the buffer itself is untouched -/
+theorem reader_delivers_in_order (v v' : Buf) (n : Nat) (d : Bytes) (h : readerRead v n = .ok (d, v')) :
+    ∃ o l, v.asInit = .ok (o, l) ∧ d = (v.getRoot.mem.drop o).take (min n l) ∧
+      v'.asInit = .ok (o + min n l, l - min n l) ∧ v'.getRoot = v.getRoot := by
+  unfold readerRead at h
+  split at h
+  · rename_i i b
+    cases hs : (Buf.slice i b none).asInit with
+    | error f => simp [hs] at h
+    | ok p =>
+      obtain ⟨o, l⟩ := p
+      simp only [hs] at h
+      cases hi : i.asInit with
+      | error f => simp [hi] at h
+      | ok q =>
+        obtain ⟨oi, li⟩ := q
+        simp only [hi] at h
+        split at h
+        · rename_i hb
+          cases h
+          refine ⟨o, l, rfl, rfl, ?_, rfl⟩
+          simp only [Buf.asInit, hi] at hs ⊢
+          obtain ⟨hb0, heq⟩ := subRange_ok hs
+          cases heq
+          simp only [Option.getD_none, Nat.min_self] at hb0 hb ⊢
+          rw [subRange_of_le (by simpa using hb)]
+          simp only [Option.getD_none, Nat.min_self, Except.ok.injEq, Prod.mk.injEq]
+          omega
+        · cases h
+  · cases h
+
+/-! ## 5. Vectored buffers -/
+
+/-- a single-buffer fill of a fresh view *is* `fillRoot` on its root (restating `fill_law` with the function
+the vectored theorems use) -/
+theorem fill_is_fillRoot (v : Buf) (hw : v.getRoot.WF) (hf : v.Fresh) (oi li o c : Nat)
+    (hi : v.asInit = .ok (oi, li)) (hu : v.asUninit = .ok (o, c)) (data : Bytes) (hk : data.length ≤ c) :
+    v.fill data = .ok (v.setRoot (fillRoot o v.getRoot data)) :=
+  fill_law v hw hf oi li o c hi hu data hk
+
+/-- **Vectored fill law, `default_set_len` containers** (`Vec<T>`, `[T; N]`, `ArrayVec<T, N>`,
+`SmallVec<[T; N]>`): for packed members (full members, then at most one partially filled one, then empty ones;
+each a fresh view whose initialised part ends where its root's does) and `|d| ≤` total capacity, writing `d`
+across `iter_uninit_slice()` and recording it with `advance_vec_to(|d|)` succeeds and is exactly the
+member-wise single-buffer fill: member `i` receives the chunk of `d` that falls into its capacity, at the
+start of its writable region (`fillMember` = `setRoot (fillRoot o root chunk)`), nothing else changes.
+`default_set_len` thus distributes the total over the members by capacity. Without packedness the statement
+is false in the code (finding V3, `Cex/C10`). -/
+theorem vectored_fill_law_list (ms : List Buf) (d : Bytes) (hp : Packed ms) (hc : d.length ≤ capSum ms) :
+    (VBuf.base .list ms).fill d = .ok (.base .list (fillMembers ms d)) :=
+  VBuf.fill_list_packed ms d hp hc
+
+/-- the same for the tuple containers `(T, (T, … (T,)))` and `(T, (T, … ()))` -/
+theorem vectored_fill_law_tuple (k : VKind) (hk : k ≠ .list) (ms : List Buf) (d : Bytes) (hp : Packed ms)
+    (hc : d.length ≤ capSum ms) :
+    (VBuf.base k ms).fill d = .ok (.base k (fillMembers ms d)) :=
+  VBuf.fill_tuple_packed k hk ms d hp hc
+
+/-- members after the end of the data are not touched at all by a vectored fill -/
+theorem vectored_fill_leaves_rest (ms : List Buf) (hg : GoodAll ms) : fillMembers ms [] = ms :=
+  fillMembers_nil hg
+
+/-- `VectoredSlice::set_len(n)` is the wrapped buffer's `set_len(begin + n)`, whatever the nesting -/
+theorem vectored_slice_set_len (i : VBuf) (b x o n : Nat) :
+    (VBuf.vslice i b x o).setLen n =
+      match i.setLen (b + n) with
+      | .ok i' => .ok (.vslice i' b x o)
+      | .error f => .error f := rfl
+
+/-- `slice_mut(begin)` starts exactly at capacity position `begin`: it skips `j` whole members whose
+capacities, plus the offset into member `j`, add up to `begin`, and the offset lies strictly inside that member
+(or all members are skipped). Together with `vectored_slice_set_len` (`set_len(begin + n)`) this places a fill
+through the slice at capacity positions `begin ..` of the wrapped buffer. -/
+theorem slice_mut_starts_at_begin (k : VKind) (ms : List Buf) (hg : GoodAll ms) (begin : Nat) :
+    ∃ j off, (VBuf.base k ms).mkSliceMut begin = .ok (.vslice (.base k ms) begin j off) ∧
+      j ≤ ms.length ∧ capSum (ms.take j) + off = begin ∧ (∀ m, ms[j]? = some m → off < memberCap m) := by
+  obtain ⟨j, off, h1, h2, h3, h4⟩ := skipCount_asUninit ms 0 begin 0 hg
+  refine ⟨j, off, ?_, h2, h3, h4⟩
+  simp only [VBuf.mkSliceMut, VBuf.iterUninit, h1, Nat.zero_add]
+
+/-- a fill through a freshly created `owned_iter()` (first position, nothing recorded yet) of a
+`default_set_len` container is the single-buffer fill of member 0 and touches no other member — whatever the
+shape of the other members. (Later positions are only right when every earlier member's capacity has been
+recorded in full through the iterator: finding V1.) -/
+theorem viter_first_fill (m : Buf) (rest : List Buf) (o li c : Nat) (hg : GoodM m o li c) (d : Bytes)
+    (hd : d.length ≤ c) (n : Nat) :
+    (VIter.mk (.base .list (m :: rest)) 0 0 n 0).fill d =
+      .ok (VIter.mk (.base .list (fillMember m d :: rest)) 0 0 n (if d.length > li then d.length else 0)) :=
+  VIter.fill_first m rest o li c hg d hd n
+
+/-! ## 6. Non-vacuity: the hypotheses are met by non-trivial data -/
 
 /-- a three-deep nesting `vec(len 6, cap 10).slice(1..9).slice(2..).slice(1..4)` is fresh, well formed,
 reports `i = 4+2`, `u = 4+3`, and a 3-byte fill through it lands at 4..7 of the root -/
@@ -201,5 +336,18 @@ example :
     ∃ u, (Buf.root r).mkUninit = .ok u ∧ u.Fresh ∧ u.asUninit = .ok (2, 3) ∧
       (u.fill [9, 9]).toOption.map (fun v' => (v'.getRoot.len, v'.getRoot.mem)) = some (4, [1, 2, 9, 9, 5]) :=
   ⟨_, rfl, ⟨trivial, 0, rfl⟩, rfl, by decide⟩
+
+/-- a packed three-member container (full, partial, empty) and a fill that spans all three -/
+example :
+    let m0 : Buf := .root ⟨.vec, 3, [1, 2, 3]⟩
+    let m1 : Buf := .root ⟨.vec, 1, [4, 5, 6, 7]⟩
+    let m2 : Buf := .root ⟨.arrayvec, 0, [8, 9]⟩
+    Packed [m0, m1, m2] ∧ capSum [m0, m1, m2] = 9 ∧
+    ((VBuf.base .list [m0, m1, m2]).fill [0xA, 0xB, 0xC, 0xD, 0xE, 0xF, 0x10, 0x11]).toOption.map
+        (fun v => v.members.map fun m => (m.getRoot.len, m.getRoot.mem))
+      = some [(3, [0xA, 0xB, 0xC]), (4, [0xD, 0xE, 0xF, 0x10]), (1, [0x11, 9])] := by
+  refine ⟨Or.inl ⟨0, 3, ⟨⟨by decide, by decide⟩, trivial, rfl, rfl, rfl⟩,
+    Or.inr ⟨0, 1, 4, ⟨⟨by decide, by decide⟩, trivial, rfl, rfl, rfl⟩,
+      ⟨⟨0, 2, ⟨⟨by decide, by decide⟩, trivial, rfl, rfl, rfl⟩⟩, trivial⟩⟩⟩, rfl, by decide⟩
 
 end Compio.Props.C10
